@@ -2297,6 +2297,90 @@ def section_tracking_and_index(ctx, r, corr):
         validate(ctx, ss, prob, 'bqm_index_labels', f'{entry} {prob.vartype}', pre + src, call, exact=prob.labels if prob.labels else None)
 
 
+def section_hoc_initial_state_history(ctx, r, corr):
+    """ONE HigherOrderComposite(child taking `initial_state`) called 2-3 times; between the calls the very same `initial_state`
+    dict (a value flipped) or the very same polynomial (a term value) is mutated in place: the one returned row is the CURRENT
+    initial state with the CURRENT polynomial's energy, penalties satisfied."""
+    import inspect
+    child_src = inspect.getsource(InitChild)
+    pool = ['a', 'b', 'c', 'z', 0, 1, 5]
+    for hi in range(ctx.scale(120, 2000)):
+        n = r.randint(2, 4)
+        labels = r.sample(pool, n)
+        spin = r.random() < .5
+        dom = (-1, 1) if spin else (0, 1)
+        terms = {(v,): dy(r) for v in labels if r.random() < .8}
+        for k in (2, 3):
+            for t in itertools.combinations(labels, k):
+                if r.random() < .5:
+                    terms[t] = dy(r)
+        for v in labels:
+            if not any(v in t for t in terms):
+                terms[(v,)] = F(1)
+        init = {v: r.choice(dom) for v in labels}
+        strength = float(r.choice([1, 2, F(1, 2), 4]))
+        keep = r.random() < .5
+        lines = ['S = dimod.HigherOrderComposite(InitChild())',
+                 f'poly = BinaryPolynomial({ {t: float(b) for t, b in terms.items()}!r}, {"SPIN" if spin else "BINARY"!r})',
+                 f'INIT = {init!r}']
+        call = f'S.sample_poly(poly, initial_state=INIT, penalty_strength={strength!r}, keep_penalty_variables={keep})'
+        ns = {'dimod': dimod, 'np': np, 'F': F, 'BinaryPolynomial': BinaryPolynomial, 'InitChild': InitChild}
+        for ln in lines:
+            exec(ln, ns)
+        for step in range(r.choice([2, 3, 3])):
+            kind = None
+            if step:
+                kind = r.choice(['initial_state value', 'initial_state value', 'term value'])
+                if kind == 'term value':
+                    t = r.choice(list(terms))
+                    terms[t] += r.choice([F(1), F(-3, 2), F(5, 8), F(-7)])
+                    mut = f'poly[{t!r}] = {_fl(terms[t])}'
+                else:
+                    v = r.choice(labels)
+                    init[v] = [x for x in dom if x != init[v]][0]
+                    mut = f'INIT[{v!r}] = {init[v]}'
+                lines.append(mut); exec(mut, ns)
+                ctx.tick(f'history(hoc initial_state): in-place {kind} before call {step + 1}')
+            lines.append('ss = ' + call)
+            cls = 'initial_state: ' + ('first call' if step == 0 else f'same composite object, input mutated in place ({kind})')
+            ctx.case(('history-hoc-init', tuple(lines)), nontrivial=True); ctx.tick(f'history(hoc initial_state): call {step + 1}')
+            site = 'HigherOrderComposite.sample_poly'
+            repro_head = PRE + child_src + '\n' + '\n'.join(lines) + '\n'
+            try:
+                exec('ss = ' + call, ns)
+            except Exception as e:  # noqa
+                ctx.fail('property', site, cls, f'{type(e).__name__}: {e}', repro=repro_head)
+                break
+            ss = ns['ss']
+
+            class P:
+                pass
+            cur = dict(terms)
+            P.labels = list(labels)
+            P.domain = staticmethod(lambda v: dom)
+
+            def energy(x, cur=cur):
+                tot = F(0)
+                for t, b in cur.items():
+                    pr = b
+                    for v in t:
+                        pr *= x[v]
+                    tot += pr
+                return tot
+            P.energy = staticmethod(energy)
+            aux = [v for v in ss.variables if v not in labels] if keep else []
+            f = predicate(ss, P, cls, aux=aux, fixed={v: F(x) for v, x in init.items()})
+            if f is None and (len(ss) != 1 or not all(ss.record.penalty_satisfaction)):
+                f = (cls + ': rows', f'{len(ss)} rows / penalty flags {list(ss.record.penalty_satisfaction)}', 'assert len(ss) == 1 and all(ss.record.penalty_satisfaction)')
+            if f is not None:
+                ic, what, assertion = f
+                ctx.fail('property', site, cls if ic == cls else cls + ': ' + ic, what,
+                         repro=repro_head + f'TERMS = { {t: str(b) for t, b in terms.items()}!r}\nimport math\n'
+                         'def energy(x):\n    return sum(F(b) * math.prod(x[v] for v in t) for t, b in TERMS.items())\n' + assertion + '\n',
+                         detail=dict(history='\n'.join(lines)))
+                break
+
+
 def section_pcomp(ctx, r, corr):
     """PolyScaleComposite.sample_poly over the whole `scalar` axis (None, non-zero, and every spelling of zero: 0, 0.0, -0.0,
     False, numpy zeros) x ignored_terms x entry points: refused with ValueError exactly for a zero scalar — then the child is
@@ -2447,6 +2531,7 @@ def run(ctx):
     section_histories_models(ctx, r, corr)
     section_pcomp(ctx, r, corr)
     section_tracking_and_index(ctx, r, corr)
+    section_hoc_initial_state_history(ctx, r, corr)
     got = run_driver('enumdriver', corr.lines)
     ctx.corr_lines += len(corr.lines)
     for i, ln in enumerate(corr.lines):
